@@ -149,20 +149,23 @@ Record state := mkState {
   bcache : list (string * (string * option nat));   (* engine -> the session its Builder has cached (engine, connection) *)
   bd : list (string * nat * nat);       (* (engine, slot, value): dialect attributes of that engine's Builder object,
                                            newest first; the Builder is a class attribute and lives as long as the process *)
+  bk : list (string * nat);             (* engine -> the conn kwarg its Builder object holds (set by the last getOrCreate under
+                                           that engine whose ACTIVATE_CONFIG had a connection; outlives activations) *)
   lastd : lastdial;                     (* input/output/execution dialect of the session the last getOrCreate returned *)
   junk : bool                           (* a failed import of the real pyspark.testing left sub-modules of it (and of
                                            pyspark.pandas) in sys.modules; re-importing any of them fails again *)
 }.
-Definition init_state : state := mkState None None None [] [] [] SNone [] [] LNone false.
+Definition init_state : state := mkState None None None [] [] [] SNone [] [] [] LNone false.
 
-Definition set_pys (s : state) t q ts sb := mkState t q ts sb (pattr s) (config s) (sess s) (bcache s) (bd s) (lastd s) (junk s).
-Definition set_subs (s : state) sb := mkState (top s) (sql s) (tst s) sb (pattr s) (config s) (sess s) (bcache s) (bd s) (lastd s) (junk s).
-Definition set_pattr (s : state) pa := mkState (top s) (sql s) (tst s) (subs s) pa (config s) (sess s) (bcache s) (bd s) (lastd s) (junk s).
-Definition set_sess (s : state) x := mkState (top s) (sql s) (tst s) (subs s) (pattr s) (config s) x (bcache s) (bd s) (lastd s) (junk s).
-Definition set_bcache (s : state) b := mkState (top s) (sql s) (tst s) (subs s) (pattr s) (config s) (sess s) b (bd s) (lastd s) (junk s).
-Definition set_junk (s : state) := mkState (top s) (sql s) (tst s) (subs s) (pattr s) (config s) (sess s) (bcache s) (bd s) (lastd s) true.
-Definition set_bd (s : state) b := mkState (top s) (sql s) (tst s) (subs s) (pattr s) (config s) (sess s) (bcache s) b (lastd s) (junk s).
-Definition set_lastd (s : state) d := mkState (top s) (sql s) (tst s) (subs s) (pattr s) (config s) (sess s) (bcache s) (bd s) d (junk s).
+Definition set_pys (s : state) t q ts sb := mkState t q ts sb (pattr s) (config s) (sess s) (bcache s) (bd s) (bk s) (lastd s) (junk s).
+Definition set_subs (s : state) sb := mkState (top s) (sql s) (tst s) sb (pattr s) (config s) (sess s) (bcache s) (bd s) (bk s) (lastd s) (junk s).
+Definition set_pattr (s : state) pa := mkState (top s) (sql s) (tst s) (subs s) pa (config s) (sess s) (bcache s) (bd s) (bk s) (lastd s) (junk s).
+Definition set_sess (s : state) x := mkState (top s) (sql s) (tst s) (subs s) (pattr s) (config s) x (bcache s) (bd s) (bk s) (lastd s) (junk s).
+Definition set_bcache (s : state) b := mkState (top s) (sql s) (tst s) (subs s) (pattr s) (config s) (sess s) b (bd s) (bk s) (lastd s) (junk s).
+Definition set_junk (s : state) := mkState (top s) (sql s) (tst s) (subs s) (pattr s) (config s) (sess s) (bcache s) (bd s) (bk s) (lastd s) true.
+Definition set_bd (s : state) b := mkState (top s) (sql s) (tst s) (subs s) (pattr s) (config s) (sess s) (bcache s) b (bk s) (lastd s) (junk s).
+Definition set_lastd (s : state) d := mkState (top s) (sql s) (tst s) (subs s) (pattr s) (config s) (sess s) (bcache s) (bd s) (bk s) d (junk s).
+Definition set_bk (s : state) b := mkState (top s) (sql s) (tst s) (subs s) (pattr s) (config s) (sess s) (bcache s) (bd s) b (lastd s) (junk s).
 
 (* ------------------------------------------------------------------------------------------------ *)
 (** * events and observations *)
@@ -361,7 +364,7 @@ Definition attrs_after_import (e : string) (s : state) : list (string * string) 
 Definition activate (e : string) (c : option nat) (kv : list (string * nat)) (s : state) : eobs * state :=
   let cfg := store_config c kv s in
   match assoc e (f_engines fa) with
-  | None => (ERaised, mkState (Some (Mock None)) (sql s) (Some Testing) (subs s) (pattr s) cfg (sess s) (bcache s) (bd s) (lastd s) (junk s))
+  | None => (ERaised, mkState (Some (Mock None)) (sql s) (Some Testing) (subs s) (pattr s) cfg (sess s) (bcache s) (bd s) (bk s) (lastd s) (junk s))
   | Some prefix =>
       let pa1 := attrs_after_import e s in
       let regs := reg_files e prefix pa1 in
@@ -369,7 +372,7 @@ Definition activate (e : string) (c : option nat) (kv : list (string * nat)) (s 
       (if length good =? length regs then EOk else ERaised,
        mkState (Some (Mock (Some e))) (Some (SfPkg e)) (Some Testing)
                (fold_left (fun acc f => (f, Sf e f) :: acc) good (subs s))
-               (pa1 ++ map (pair e) good) cfg (sess s) (bcache s) (bd s) (lastd s) (junk s))
+               (pa1 ++ map (pair e) good) cfg (sess s) (bcache s) (bd s) (bk s) (lastd s) (junk s))
   end.
 
 (** ** deactivate *)
@@ -386,8 +389,8 @@ Definition deactivate (s : state) : eobs * state :=
    if (any_present s || junk s) && installed en
    then mkState (Some Real) (Some Real)
                 (if is_some (tst s) && rimp_eqb (testing_imp en) ROk then Some Real else None)
-                (map (fun f => (f, Real)) (bundle en)) (pattr s) cfg (sess s) (bcache s) (bd s) (lastd s) (testing_fails s)
-   else mkState None None None [] (pattr s) cfg (sess s) (bcache s) (bd s) (lastd s) (junk s)).
+                (map (fun f => (f, Real)) (bundle en)) (pattr s) cfg (sess s) (bcache s) (bd s) (bk s) (lastd s) (testing_fails s)
+   else mkState None None None [] (pattr s) cfg (sess s) (bcache s) (bd s) (bk s) (lastd s) (junk s)).
 
 Definition exit_deactivates (k : exitkind) : bool :=
   match k with XNormal => true | _ => f_ctx_finally fa end.
@@ -395,7 +398,7 @@ Definition exit_deactivates (k : exitkind) : bool :=
 (** ** SparkSession.builder.getOrCreate() *)
 Definition is_bad (c : option nat) : bool := match c with Some 9 => true | _ => false end.
 Definition create_session (e : string) (s : state) : eobs * state :=
-  let c := if mem e (f_noconn fa) then None else assoc (f_conn_key fa) (config s) in
+  let c := if mem e (f_noconn fa) then None else assoc e (bk s) in      (* the Builder's conn kwarg, not ACTIVATE_CONFIG *)
   if is_bad c && mem e (bad_raises en) then (GRaise, set_sess s SPoisoned)
   else (GSession e c, set_sess s (SLive e c)).
 (** a Builder whose `session` is a cached_property keeps returning the first session it ever built *)
@@ -452,12 +455,15 @@ Definition note_dial (e : string) (r : eobs * state) : eobs * state :=
   | (GUnknown, s') => (GUnknown, set_lastd s' LUnknown)
   | (o, s') => (o, set_lastd s' LNone)
   end.
+Definition replay_config (e : string) (s : state) : state :=
+  set_bk (set_bd s (apply_cfg e (config s) (bd s)))
+         (match assoc (f_conn_key fa) (config s) with Some k => (e, k) :: bk s | None => bk s end).
 Definition get_or_create (s : state) : eobs * state :=
   let '(o, s1) := import_sql s in
   match o with
   | EMod (SfPkg e) =>
       if mem e (f_selfref fa) then (GRaise, set_lastd s1 LNone)
-      else note_dial e (goc_session e (set_bd s1 (apply_cfg e (config s1) (bd s1))))   (* ACTIVATE_CONFIG is replayed first *)
+      else note_dial e (goc_session e (replay_config e s1))   (* ACTIVATE_CONFIG is replayed into the Builder first *)
   | EMod Real => (GReal, set_lastd s1 LNone)
   | EMod _ => (EError, set_lastd s1 LNone)
   | o' => (o', set_lastd s1 LNone)
